@@ -130,6 +130,32 @@ def main(tier, seed):
                     else:
                         rep.violation("correspondence", {"what": "chunk hash differs but no differing string found", "chunk": [k, p], "impl": x, "model": y})
                     break
+        # every Unicode scalar value, in four template texts (classification as syllable / white space / line break /
+        # dot / area character / command start): chunk hashes over all 1,112,064 scalar values
+        step = 4096
+        cops = ["parsecp %d %d" % (a, min(a + step, 0x110000)) for a in range(0, 0x110000, step)]
+        ca = run_lines([HARNESS_BIN, "lines"], cops, chunks=32, timeout=3000)
+        cm = run_lines([HYDRV], ["m." + o for o in cops], chunks=32, timeout=3000)
+        cs = run_lines([HYDRV], ["s." + o for o in cops], chunks=32, timeout=3000)
+        rep.count("every-scalar-value-x4-templates", 4 * 1112064)
+        for o, x, y, z in zip(cops, ca, cm, cs):
+            if unjudged(x, y, z): continue
+            if x != z or x != y:
+                a0, b0 = int(o.split(" ")[1]), int(o.split(" ")[2])
+                bad = None
+                for v in range(a0, b0):
+                    if 0xD800 <= v <= 0xDFFF: continue
+                    c = chr(v)
+                    for t in ("혀" + c + "엉.", "형" + c + "형", "형." + c + ".", c + "형" + c):
+                        xi = impl_lines(["parse " + enc_text(t)])[0]; zi = model_lines(["s.parse " + enc_text(t)])[0]; yi = model_lines(["m.parse " + enc_text(t)])[0]
+                        if xi != zi:
+                            bad = ("impl-vs-spec", {"text": t, "codepoints": enc_text(t), "impl": xi, "model": yi, "spec": zi, "match_key": "parse:" + enc_text(t)}); break
+                        if xi != yi and bad is None:
+                            bad = ("correspondence", {"what": "model and implementation classify a character differently", "codepoints": enc_text(t), "impl": xi, "model": yi})
+                    if bad and bad[0] == "impl-vs-spec": break
+                rep.violation(*(bad or ("correspondence", {"what": "code-point chunk hash differs but no differing text found", "chunk": o, "impl": x, "model": y, "spec": z})))
+                break
+        for i in range(len(cops)): rep.nontrivial("cp-chunk-%d" % i)
         # every distinct small-scope string counts as distinct; non-trivial ones = those with a command: not measured -> count chunks conservatively
         for e in exhaustive:
             for i in range(e["chunks"]):
@@ -140,6 +166,6 @@ def main(tier, seed):
         extra = {}
     return rep.finish(extra, rule="random Unicode mixtures weighted to command syllables/other Hangul/dots/hearts/?/!/whitespace/astral + long area chains; "
                       "a random text is non-trivial when it has >= 2 characters and yields >= 1 command (distinct by text hash); exhaustive small-scope strings are "
-                      "compared by chunk hash and counted conservatively as one non-trivial case per chunk",
+                      "compared by chunk hash and counted conservatively as one non-trivial case per chunk; every Unicode scalar value in four template texts, by chunk hash",
                       assumptions=["char::is_whitespace is modelled by the Unicode White_Space list (Rust std trusted)",
                                    "area chains deeper than 4096 operators are outside the property"])
